@@ -16,9 +16,9 @@ import (
 	"cuelang.org/go/cue/cuecontext"
 	toml "github.com/pelletier/go-toml"
 	"github.com/vimeo/dials"
+	dyaml "github.com/vimeo/dials/decoders/yaml"
 	"github.com/vimeo/dials/ptrify"
 	"github.com/vimeo/dials/sources/static"
-	dyaml "github.com/vimeo/dials/decoders/yaml"
 	"github.com/vimeo/dials/sourcewrap"
 	"github.com/vimeo/dials/transform"
 	yaml "gopkg.in/yaml.v2"
@@ -33,9 +33,9 @@ type input struct {
 	State uint64 `json:"state"`
 	Depth int    `json:"depth"`
 	Width int    `json:"width"`
-	Wrap  bool   `json:"wrap,omitempty"` // decoders wrapped with the set-slice mangler (as ez does)
-	Fmt   int    `json:"fmt,omitempty"`  // corrupt: which format
-	Mut   uint64 `json:"mut,omitempty"`  // corrupt: PRNG state of the corruption
+	Wrap  bool   `json:"wrap,omitempty"`  // decoders wrapped with the set-slice mangler (as ez does)
+	Fmt   int    `json:"fmt,omitempty"`   // corrupt: which format
+	Mut   uint64 `json:"mut,omitempty"`   // corrupt: PRNG state of the corruption
 	Embed bool   `json:"embed,omitempty"` // the type may have embedded structs
 }
 
@@ -303,6 +303,11 @@ func genDoc(r *coqfmt.Rng, t reflect.Type, bad *int) *doc {
 		}
 		if r.Chance(1, 2) {
 			return dS(coqfmt.Pick(r, goodDur))
+		}
+		if r.Chance(1, 4) {
+			// integer nanoseconds beyond 2^53: must arrive exactly (no detour through float64)
+			return dI(coqfmt.Pick(r, []int64{1<<53 + 1, 1<<62 + 12345, 1<<63 - 1, -(1 << 53) - 1, -(1 << 63) + 1,
+				9007199254740993, 1234567890123456789}) - int64(r.Intn(3)))
 		}
 		return dI(int64(r.Intn(1000000)) * int64(1+r.Intn(1000)))
 	case t.Kind() == reflect.Ptr:
@@ -681,7 +686,8 @@ func genericParse(f int, text string) (*doc, error, bool) {
 	case 1:
 		var m map[string]interface{}
 		if err := yaml.Unmarshal([]byte(text), &m); err != nil {
-			if strings.Contains(err.Error(), "map merge requires") || strings.Contains(err.Error(), "value contains itself") {
+			if strings.Contains(err.Error(), "map merge requires") || strings.Contains(err.Error(), "value contains itself") ||
+				strings.Contains(err.Error(), "invalid map key") {
 				// not a parse error: raised while a mapping / alias is being constructed, which the decode
 				// into a struct never does for a value under an unknown key
 				return nil, nil, true
@@ -1001,7 +1007,7 @@ func gen(r *coqfmt.Rng, n int, tier string) []json.RawMessage {
 func mainHarness() {
 	driver.Main(driver.Engine{
 		Prop: "C13", CoqImport: "Dials.Check.C13Check", CoqRun: "run_cases",
-		Rule: "random config types whose fields all carry dials tags (1/8 also carry json/yaml/toml tags; nested structs, *struct, []struct, scalars of every integer width, bool, string, durations, slices, string-keyed maps, user pointers); one abstract document per type (random subset of keys, unknown keys, shuffled order, durations as strings or integer nanoseconds, boundary integers, quoting-heavy strings; in 1/4 of the cases one ill-typed / out-of-range / malformed value planted) rendered as JSON, YAML, TOML and Cue and decoded by the four real decoders through static.StringSource: every outcome is compared with the model decoder and the strict specification decoder; plus single-token corruptions of each rendering (delete, duplicate, replace, punctuation, scalar kind change, truncate) with the library's own generic parse as oracle (error => the decoder must fail [direct oracle]; success => the decoder must agree with the specification on the re-abstracted tree); non-trivial: agree cases with >=2 keys and nesting depth >=2, corrupt cases the library accepts; distinct = distinct (case state, format, corruption state)",
+		Rule: "random config types whose fields all carry dials tags (1/8 also carry json/yaml/toml tags; nested structs, *struct, []struct, in 1/3 of the types embedded structs / *structs (also embedded inside embedded), scalars of every integer width, bool, string, durations, time.Time (also *time.Time, []time.Time, map[string]time.Time), net.IP, a TextUnmarshaler struct, slices, string-keyed maps, sets when wrapped, user pointers); one abstract document per type (random subset of keys, unknown keys, shuffled order, durations as strings or integer nanoseconds, timestamps over years 0000-9999 with fractions and offsets and the zero instant, boundary integers, quoting-heavy strings; in 1/4 of the cases one ill-typed / out-of-range / malformed value planted) rendered as JSON, YAML, TOML and Cue and decoded by the four real decoders through static.StringSource: every outcome is compared with the model decoder and the strict specification decoder; types with embedded structs are also decoded by decoders/yaml with FlattenAnonymous from a document written the flattened way (case Flat: model = type rewrite + regrouping, specification = direct reading); struct types with one key on two fields must make the YAML decoder return an error [direct oracle]; plus single-token corruptions of each rendering (delete, duplicate, replace, splice of any token kind of the format, scalar kind change, truncate) with the library's own generic parse as oracle (error => the decoder must fail [direct oracle]; success => the decoder must agree with the specification on the re-abstracted tree); non-trivial: agree cases with >=2 keys and nesting depth >=2, flat cases with an embedded struct and >=2 keys, corrupt cases the library accepts; distinct = distinct (case kind, case state, format, corruption state)",
 		Gen:  gen, Run: run,
 	})
 }
